@@ -1,16 +1,9 @@
-/-! Feasibility prototype (scratch): `exact_solver._graycode` visits every n-bit vector.
-    Rows are bit masks (`Nat`); row i = row (i-1) with bit `ctz i` flipped. -/
+import DimodModel.Enumerate
 
-/-- index of the least significant set bit (code: `(i & -i).bit_length() - 1`) -/
-def ctz (i : Nat) : Nat :=
-  if h : i = 0 then 0 else if i % 2 = 1 then 0 else ctz (i / 2) + 1
-termination_by i
-decreasing_by omega
+/-! C07: `exact_solver._graycode` visits every n-bit vector exactly once.
+    `Enum.ctz`, `Enum.gray` (masks) and `Enum.graycode` (rows, as coded) are in `DimodModel/Enumerate.lean`. -/
 
-/-- the sequence produced by the loop -/
-def gray : Nat → Nat
-  | 0 => 0
-  | i+1 => gray i ^^^ (2 ^ ctz (i+1))
+namespace Enum
 
 theorem ctz_lt (m i : Nat) (h0 : 0 < i) (h : i < 2^m) : ctz i < m := by
   induction m generalizing i with
@@ -117,4 +110,4 @@ theorem gray_surj (m t : Nat) (h : t < 2^m) : ∃ i, i < 2^m ∧ gray i = t := b
       have e : c ^^^ 2^m ^^^ (t ^^^ 2^m ^^^ c) = (c ^^^ c) ^^^ ((2^m ^^^ 2^m) ^^^ t) := by ac_rfl
       rw [e, Nat.xor_self, Nat.xor_self]; simp
 
-#print axioms gray_surj
+end Enum
